@@ -24,6 +24,10 @@ def points_for(fn, var, lo, hi):
             l, r = x.get('lhs'), x.get('rhs')
             if A.ref_name(l) == var and A.const(r) is not None: ks.add(A.const(r))
             elif A.ref_name(r) == var and A.const(l) is not None: ks.add(A.const(l))
+        if x.get('k') == 'SwitchStmt' and A.ref_name(x.get('cond')) == var:
+            for labels, st in P.PEval.switch_items(x['body']):
+                for lo_, hi_ in labels:
+                    if lo_ != 'default': ks.add(lo_); ks.add(hi_)
     pts = {lo, hi}
     if lo <= 0 <= hi: pts.add(0)
     for k in ks:
@@ -90,7 +94,7 @@ def msgpack_decode(rows, v, out, family):
     m = out[0][1] & 0xff
     r = rows[m]
     fam = r['event']
-    want_fam = {'uint': ('uint64', 'int64'), 'int': ('int64', 'uint64'), 'str': ('string',), 'bin': ('byte_string',), 'array': ('begin_array',), 'map': ('begin_object',)}[family]
+    want_fam = {'uint': ('uint64', 'int64'), 'int': ('int64', 'uint64'), 'str': ('string',), 'bin': ('byte_string',), 'array': ('begin_array',), 'map': ('begin_object',), 'ext': ('ext',)}[family]
     if fam not in want_fam: return 'marker 0x%02x belongs to family %s (%s), expected %s' % (m, r['family'], fam, '/'.join(want_fam))
     if family in ('uint', 'int'):
         if 'read_type' not in r:
@@ -111,6 +115,8 @@ def msgpack_decode(rows, v, out, family):
         if fam == 'uint64' and v < 0: return 'negative value written with an unsigned marker'
         return None
     # lengths
+    if 'length' in r and isinstance(r['length'], int):
+        return None if r['length'] == v else 'fixed-size header 0x%02x (%s) announces %d payload bytes, actual length %d' % (m, r['family'], r['length'], v)
     if 'length' in r and isinstance(r['length'], str):
         mask = 0x0f if r['length'] == 'low4' else 0x1f
         dec = m & mask
@@ -306,9 +312,127 @@ def r06_4(chk, tier):
         if got == {sem}: chk.ok('R06.4', site, {'semantic_tag': sem, 'cbor_tag': N})
         else: chk.fail('R06.4', site, rfn['file'], rfn['l'], 'encoder writes semantic_tag::%s on a byte string as CBOR tag %d, but the decoder maps tag %d on a byte string to %s' % (sem, N, N, sorted(got) or 'no tag'), None, rfn['q'])
 
+# BSON element type -> the event class the (verified, R07.bson) decoder produces for it
+BSON_CLASS = {0x01: 'double', 0x02: 'string', 0x03: 'object', 0x04: 'array', 0x05: 'byte_string', 0x06: 'null', 0x07: 'string', 0x08: 'bool',
+              0x09: 'integer', 0x0a: 'null', 0x0b: 'string', 0x0d: 'string', 0x0e: 'string', 0x10: 'integer', 0x11: 'integer', 0x12: 'integer', 0x13: 'string'}
+BSON_VISIT = {'visit_null': 'null', 'visit_bool': 'bool', 'visit_double': 'double', 'visit_int64': 'integer', 'visit_uint64': 'integer',
+              'visit_string': 'string', 'visit_byte_string': 'byte_string', 'visit_begin_object': 'object', 'visit_begin_array': 'array'}
+SIZEOF = {'double': 8, 'float': 4, 'long': 8, 'unsigned long': 8, 'int': 4, 'unsigned int': 4, 'short': 2, 'unsigned short': 2, 'char': 1,
+          'unsigned char': 1, 'signed char': 1, 'bool': 1, 'long long': 8, 'unsigned long long': 8}
+
+def r06_bson(chk, tier):
+    from .. import cfg as C
+    chk.rule('R06.bson', 'BSON encoder: every element type byte a visit_* writes belongs to the event class the decoder produces for that type '
+                         '(BSON 1.1 element table), and the little-endian payload written after it has the width the table gives', floor=20)
+    facts = F.load(['bson'], tier)
+    if 'bson' not in chk.units: chk.units.append('bson')
+    sp = c07.spec('bson.json')
+    types = {int(k, 16): v for k, v in sp['types'].items()}
+    n = 0
+    for name, cls in sorted(BSON_VISIT.items()):
+        fns = [f for f in U.functions(facts, cls='basic_bson_encoder', name=name) if f.get('body') is not None]
+        chk.require(fns, 'basic_bson_encoder::%s not found' % name)
+        done = set()
+        for fn in U.one_per_inst(fns):
+            key = (fn['l'],)
+            if key in done: continue
+            done.add(key)
+            chk.analysed(fn)
+            g = C.CFG(fn['body'])
+            marks = []
+            for nd in g.rpo:
+                if nd.kind not in ('stmt', 'cond') or not isinstance(nd.ast, dict): continue
+                for c in A.calls_in(nd.ast):
+                    if A.callee_name(c) == 'before_value' and c.get('args'): marks.append((nd, c))
+            if not marks:
+                chk.fail('R06.bson', U.site(fn, 'type byte'), fn['file'], fn['l'], '%s writes no element type byte (before_value)' % name, None, fn['q']); continue
+            mark_nodes = [m[0] for m in marks]
+            for i, (nd, c) in enumerate(marks):
+                code = A.const(c['args'][0])
+                n += 1
+                site = U.site(fn, 'type byte #%d' % (i + 1))
+                if code is None:
+                    chk.fail('R06.bson', site, fn['file'], c.get('l'), '%s: element type is not a constant' % name, None, fn['q']); continue
+                row = types.get(code)
+                got = BSON_CLASS.get(code)
+                if got != cls:
+                    chk.fail('R06.bson', site, fn['file'], c.get('l'), '%s writes element type 0x%02x (%s), which the decoder reads back as %s, not %s' % (
+                        name, code, row['name'] if row else 'undefined', got or 'an error', cls), {'type': '0x%02x' % code}, fn['q']); continue
+                # payload width: the first native_to_little reachable from here before another type byte
+                prob = None
+                if row and row.get('payload') in (1, 4, 8) and row.get('read_type'):
+                    seen = set(); stack = list(nd.succ); widths = []
+                    while stack:
+                        x = stack.pop()
+                        if x.id in seen or x in mark_nodes: continue
+                        seen.add(x.id)
+                        hit = False
+                        if x.kind in ('stmt', 'cond') and isinstance(x.ast, dict):
+                            for c2 in A.calls_in(x.ast):
+                                if A.callee_name(c2) == 'native_to_little' and c2.get('args'):
+                                    a0 = c2['args'][0]
+                                    tn = fn['_types'][a0['t'] - 1].replace('const ', '').replace('&', '').strip() if a0.get('t') else ''
+                                    tn = {'int64_t': 'long', 'uint64_t': 'unsigned long', 'int32_t': 'int', 'uint32_t': 'unsigned int'}.get(tn, tn)
+                                    widths.append((SIZEOF.get(tn), tn, c2.get('l'))); hit = True
+                        if not hit: stack.extend(x.succ)
+                    if not widths: prob = 'no little-endian payload follows'
+                    for w, tn, l in widths:
+                        if w != row['payload']: prob = 'the payload written at line %s is %s (%s bytes), the table says %d bytes' % (l, tn, w, row['payload'])
+                if prob: chk.fail('R06.bson', site, fn['file'], c.get('l'), '%s, element type 0x%02x (%s): %s' % (name, code, row['name'], prob), None, fn['q'])
+                else: chk.ok('R06.bson', site, {'function': name, 'type': '0x%02x' % code, 'name': row['name'] if row else None})
+    chk.require(n >= 20, 'R06.bson: only %d element type writes found' % n)
+
+def marker_pairs(facts, fn, bind=None):
+    """(marker byte, following conversion (name, type) or None, guards, line) for every constant byte the function pushes."""
+    pe = P.PEval(facts, fn, follow=lambda c, e: False, bind=bind or {}, max_depth=1)
+    try: pe.exec_body(fn, {})
+    except P.Stop: pass
+    out = []
+    effs = [e for e in pe.effects if e.kind == 'call']
+    for i, e in enumerate(effs):
+        if e.name == 'sink_.push_back' and e.args and isinstance(e.args[0], int) and not any(g.startswith('loop@') for g in e.guards):
+            nxt = next((x for x in effs[i + 1:i + 4] if 'back_inserter' not in x.name), None)
+            conv = None
+            if nxt is not None and nxt.name.split('::')[-1] in ('native_to_big', 'native_to_little') and nxt.guards == e.guards:
+                conv = (nxt.name.split('::')[-1], (nxt.extra.get('ta') or ['?'])[0])
+            out.append((e.args[0] & 0xff, conv, e.guards, e.line))
+    return out
+
+def r06_scalars_msgpack(chk, facts, rows):
+    """null / bool / double markers of the MessagePack encoder against the specification rows."""
+    for name, binds, want in (('visit_null', [{}], [('null', None)]), ('visit_bool', [{'val': 1}, {'val': 0}], [('bool', True), ('bool', False)]),
+                              ('visit_double', [{}], [('double', None)])):
+        fns = [f for f in U.functions(facts, cls='basic_msgpack_encoder', name=name) if f.get('body') is not None]
+        chk.require(fns, 'basic_msgpack_encoder::%s not found' % name)
+        for fn in U.one_per_inst(fns):
+            chk.analysed(fn)
+            for b, (ev, val) in zip(binds, want if len(want) == len(binds) else want * len(binds)):
+                mp = marker_pairs(facts, fn, b)
+                site = U.site(fn, 'marker %s' % ('/'.join('%s=%s' % kv for kv in b.items()) or 'value'))
+                if name != 'visit_double': mp = [m for m in mp if not m[2]][:1]
+                if not mp:
+                    chk.fail('R06.msgpack', site, fn['file'], fn['l'], '%s writes no constant marker byte' % name, None, fn['q']); continue
+                bad = None
+                for m, conv, gs, line in mp:
+                    r = rows[m]
+                    if r['event'] != ev: bad = (line, 'marker 0x%02x is %s (%s), expected a %s marker' % (m, r['family'], r['event'], ev)); break
+                    if val is not None and r.get('value') is not val: bad = (line, 'marker 0x%02x encodes %s, the value is %s' % (m, r.get('value'), val)); break
+                    if ev == 'double':
+                        if conv is None or conv[0] != 'native_to_big': bad = (line, 'marker 0x%02x (%s) is not followed by a big-endian payload' % (m, r['family'])); break
+                        if conv[1] != r['read_type']: bad = (line, 'marker 0x%02x announces %s but a %s is written' % (m, r['read_type'], conv[1])); break
+                if name == 'visit_double' and not bad and sorted(set(m[0] for m in mp)) != [0xca, 0xcb]:
+                    pass
+                if bad: chk.fail('R06.msgpack', site, fn['file'], bad[0], '%s: %s' % (name, bad[1]), None, fn['q'])
+                else: chk.ok('R06.msgpack', site, {'function': name, 'markers': ['0x%02x' % m[0] for m in mp]})
+
 def run(chk, tier, only_rule=None):
     chk.explanation = EXPLANATION
     chk.not_decided = NOT_DECIDED
+    ladders(chk, tier)
+    r06_3(chk, tier)
+    r06_4(chk, tier)
+
+def ladders(chk, tier):
     # ---- MessagePack
     chk.rule('R06.msgpack', 'MessagePack encoder ladders: integer, string, bin, array and map headers are exhaustive, non-truncating and use the '
                             'marker whose specification row reads the same width/type', floor=40)
@@ -329,6 +453,10 @@ def run(chk, tier, only_rule=None):
         check_ladder(chk, 'R06.msgpack', facts, fn, 'val', I64MIN, I64MAX, lambda v, o: msgpack_decode(rows, v, o, 'int'), {'tag': tag_none})
     for fn in one('basic_msgpack_encoder', 'write_string_value'):
         check_ladder(chk, 'R06.msgpack', facts, fn, 'length', 0, U64, lambda v, o: msgpack_decode(rows, v, o, 'str'))
+    for fn in one('basic_msgpack_encoder', 'visit_byte_string'):
+        is_ext = 'raw_tag' in [p_['n'] for p_ in fn['params']] or 'unsigned long' == F.tname(fn, fn['params'][1]['t'])
+        check_ladder(chk, 'R06.msgpack', facts, fn, 'length', 0, U64, lambda v, o, fam=('ext' if is_ext else 'bin'): msgpack_decode(rows, v, o, fam), label='visit_byte_string(%s)' % ('ext' if is_ext else 'bin'))
+    r06_scalars_msgpack(chk, facts, rows)
     for fn in one('basic_msgpack_encoder', 'visit_begin_array', lambda f: len(f['params']) == 4):
         check_ladder(chk, 'R06.msgpack', facts, fn, 'length', 0, U64, lambda v, o: msgpack_decode(rows, v, o, 'array'))
     for fn in one('basic_msgpack_encoder', 'visit_begin_object', lambda f: len(f['params']) == 4):
@@ -355,5 +483,4 @@ def run(chk, tier, only_rule=None):
         check_ladder(chk, 'R06.ubjson', facts, fn, 'length', 0, U64, lambda v, o: ubjson_decode(v, o))
     for fn in one('basic_ubjson_encoder', 'visit_uint64'):
         check_ladder(chk, 'R06.ubjson', facts, fn, 'val', 0, U64, lambda v, o: ubjson_decode(v, o), {'tag': tag_none})
-    r06_3(chk, tier)
-    r06_4(chk, tier)
+    r06_bson(chk, tier)
